@@ -7,7 +7,7 @@ use serde_json::{Value, json};
 use std::path::Path;
 use std::process::Command;
 
-const CRASH_OWNERS: &[&str] = &["C01", "C03", "C04", "C05", "C06", "C07", "C14", "C18"];
+const CRASH_OWNERS: &[&str] = &["C01", "C03", "C04", "C05", "C06", "C07", "C14", "C18", "C20"];
 
 /// Executes one saved case. Exit code 1 (and a VIOLATION line) if the recorded property is violated.
 pub fn replay_file(path: &str) -> i32 {
@@ -124,9 +124,11 @@ pub fn triage_crash(prop: &str, tier: Tier, seed: u64, exe: &Path) -> i32 {
         }
     }
     let niche_crash = prop == "C20" && case.get("kind").and_then(|k| k.as_str()) == Some("niche");
-    if !CRASH_OWNERS.contains(&prop) && !niche_crash {
+    // C10: "moves the handle to its own storage with the correct contents" - a crash of a history over static handles
+    let static_crash = prop == "C10" && case.to_string().contains("\"from_static\"");
+    if !CRASH_OWNERS.contains(&prop) && !niche_crash && !static_crash {
         eprintln!(
-            "INCONCLUSIVE property={prop}: the engine crashed (signal) on a recorded case; crashes are reported by the checks of C01/C03/C05/C06/C07/C18, not by this one"
+            "INCONCLUSIVE property={prop}: the engine crashed (signal) on a recorded case; crashes are reported by the checks of C01/C03/C05/C06/C07/C18/C20, not by this one"
         );
         return 2;
     }
